@@ -52,6 +52,29 @@ pub fn run_case(kvs: &[Kv], geom: Geom) -> Result<u64, String> {
                 return Err(format!("Map::as_fst().get_key({}) differs", q));
             }
         }
+        // arena use: ONE buffer that keeps growing over all queries of this map,
+        // starting empty / already as large as the whole file / 64 KiB
+        for prefill in [0usize, bytes.len(), 1 << 16] {
+            let mut arena = vec![b'z'; prefill];
+            for &q in &queries {
+                let before = arena.len();
+                let want: Option<&Key> = kvs.iter().find(|(_, v)| *v == q).map(|(k, _)| k);
+                let found = f.get_key_into(q, &mut arena);
+                match want {
+                    Some(k) => {
+                        if !found || arena.len() != before + k.len() || &arena[before..] != &k[..] || arena[..before.min(prefill)].iter().any(|&b| b != b'z') {
+                            return Err(format!("get_key_into({}) into a buffer already holding {} bytes returned {} and appended {}, expected true and {}", q, before, found, key_str(&arena[before.min(arena.len())..]), key_str(k)));
+                        }
+                    }
+                    None => {
+                        if found {
+                            return Err(format!("get_key_into({}) into a buffer already holding {} bytes returned true but no key has that value", q, before));
+                        }
+                        arena.truncate(before);
+                    }
+                }
+            }
+        }
         Ok(n)
     })
     .and_then(|x| x)
@@ -92,7 +115,7 @@ fn increasing(n: usize, m: u64, f: &mut dyn FnMut(&[u64])) {
 pub fn plan(tier: Tier) -> Plan {
     let mut p = Plan::new("C16", "model_checking");
     let thorough = tier.thorough();
-    p.rule = "every key set of U_ab3 with <= 5 keys (thorough: <= 7) and of U_abc2 with <= 4 (thorough: <= 6) x EVERY strictly increasing value assignment from {0..n+3} (C(n+4,n) each), plus gapped assignments at pack-width boundaries and with u64::MAX as the largest value; with and without the empty key; queries: every value in 0..=max+2, every stored value +-1, 0, 1, u64::MAX-1, u64::MAX, through get_key and get_key_into (buffer pre-filled with 'xy'). non-trivial = maps with >= 2 keys".into();
+    p.rule = "every key set of U_ab3 with <= 5 keys (thorough: <= 7) and of U_abc2 with <= 4 (thorough: <= 6) x EVERY strictly increasing value assignment from {0..n+3} (C(n+4,n) each), plus gapped assignments at pack-width boundaries and with u64::MAX as the largest value; with and without the empty key; queries: every value in 0..=max+2, every stored value +-1, 0, 1, u64::MAX-1, u64::MAX, through get_key and get_key_into (buffer pre-filled with 'xy'; and one arena buffer growing over all queries, starting empty, as large as the file, and at 64 KiB). non-trivial = maps with >= 2 keys".into();
     p.assumptions = vec!["the buffer content after get_key_into returned false is unspecified and not compared".into()];
     for (u, maxk) in [(u_ab3(), if thorough { 7 } else { 5 }), (u_abc2(), if thorough { 6 } else { 4 })] {
         let mut masks = vec![];
